@@ -214,6 +214,11 @@ Proof.
   destruct minimize; cbn [ev_sign] in *; lia.
 Qed.
 
+(* what every group-2 run (powell, bfgs, lbfgs) establishes: us = raw user values of the objective calls *)
+Definition flow_ok (us : list Z) (r : result) (st : est) : Prop :=
+  (r_sol r < evals st)%nat /\ nth_error us (r_sol r) = Some (r_obj r) /\
+  (evals st + length (rest st) = length us)%nat.
+
 (* ------------------------------------------------------------------ mirror *)
 Definition neg_res (r : result) : result := mkR (r_sol r) (- r_obj r) (r_iter r) (r_evals r) (r_status r).
 Definition neg_out (o : option (result * est)) : option (result * est) :=
